@@ -288,6 +288,9 @@ func randVal(d argzoo.TypeDesc, r *rand.Rand, depth int) tj.T {
 		}
 		return tstr("s", string(out))
 	case "enum":
+		if len(d.Names) == 0 { // the "no good value" type at the bottom of an unrolled recursive type
+			return tj.T{K: "n"}
+		}
 		return tstr("s", d.Names[r.Intn(len(d.Names))])
 	case "bytes":
 		b := make([]byte, r.Intn(5))
